@@ -111,33 +111,42 @@ def ref_unframe(b):
 def replay_framing(lengths, compress_tx):
     return REPLAY_HEAD + '''
 lengths = %r; compress = %r
+import hashlib
+def noise(n, salt):
+    # bytes that zlib cannot shrink (the solver's "compressed form is not shorter" case)
+    out = b""; k = 0
+    while len(out) < n:
+        out += hashlib.sha256(b"%%d:%%d" %% (salt, k)).digest(); k += 1
+    return out[:n]
 bad = False
-s = Rec()
-ch = Channel(s, compress)
-payloads = []
-for i, n in enumerate(lengths):
-    p = (bytes([65 + i]) * n) if n <= 3000 or i %% 2 == 0 else bytes((j * 7 + i) %% 251 for j in range(n))
+for style in ("compressible", "noise", "mixed"):
+  s = Rec()
+  ch = Channel(s, compress)
+  payloads = []
+  for i, n in enumerate(lengths):
+    if style == "compressible" or (style == "mixed" and i %% 2 == 0): p = bytes([65 + i]) * n
+    else: p = noise(n, i)
     payloads.append(p)
     ch.send(p)
-wire = b"".join(s.w)
-exp = b"".join(ref_frame(p, compress) for p in payloads)
-if wire != exp:
-    print("wire differs from the reference frame at lengths", lengths, [len(w) for w in s.w]); bad = True
-rest = wire
-try:
-    for p in payloads:
-        got, rest = ref_unframe(rest)
-        if got != p: bad = True; print("reference decoder reads a different payload")
-except Exception as e:
-    print("reference decoder fails:", e); bad = True
-r = Channel(Rec(wire), not compress)
-for p in payloads:
-    try:
-        q = r.recv()
-    except Exception as e:
-        print("recv raised", type(e).__name__, e); bad = True; break
-    if q != p:
-        print("recv returned a different packet (len %%d vs %%d)" %% (len(q), len(p))); bad = True
+  wire = b"".join(s.w)
+  exp = b"".join(ref_frame(p, compress) for p in payloads)
+  if wire != exp:
+      print("wire differs from the reference frame at lengths", lengths, [len(w) for w in s.w]); bad = True
+  rest = wire
+  try:
+      for p in payloads:
+          got, rest = ref_unframe(rest)
+          if got != p: bad = True; print("reference decoder reads a different payload")
+  except Exception as e:
+      print("reference decoder fails:", e); bad = True
+  r = Channel(Rec(wire), not compress)
+  for p in payloads:
+      try:
+          q = r.recv()
+      except Exception as e:
+          print("recv raised", type(e).__name__, e); bad = True; break
+      if q != p:
+          print("recv returned a different packet (len %%d vs %%d)" %% (len(q), len(p))); bad = True
 if bad:
     print("REPRODUCED"); sys.exit(1)
 ''' % (lengths, compress_tx)
